@@ -25,15 +25,16 @@ theorem single_free_effect (H : Hooks) (compress : Bool) (items : List Item) (r 
     (hnal : ∀ n rd rs1 aq rl, i0 ≠ .al n rd rs1 aq rl) (haj : i0.isAuipcJump = false)
     (hfree : ∀ imm, i0.imm? = some imm → ImmLabelFree H r.constants imm)
     (hres : ∀ q, resolveWith (evalAt H (chainGet r.constants r.labels) line q) (i0.mapRegs (aliasReg r.constants)) = some rins) :
-    ∃ off : Int,
+    ∃ off : Int, SourceAt H compress items r A B line off ∧
       (∀ f x, (i0.mapRegs (aliasReg r.constants)).fld f = some x → (lookupRegister x).isSome = true) ∧
       ∀ i32, ((∀ f x, (i0.mapRegs (aliasReg r.constants)).fld f = some x → (lookupRegister x).isSome = true) →
           denote32I rins = some i32) →
-        ∃ n : Nat, (n = 4 ∨ n = 2) ∧ ExecAt r off n (exec i32 n) := by
-  obtain ⟨G7, P, blk, S, q, Lq, instrs, short, eG, hexp, hz, hplaced, _, _, _⟩ :=
+        ∃ n : Nat, (n = 4 ∨ n = 2) ∧ DecodedAt H r line (i0.mapRegs (aliasReg r.constants)) off n i32 := by
+  obtain ⟨G7, P, blk, S, q, Lq, instrs, short, eG, hexp, hz, hplaced, _, _, _, hlayout, xA, xB, hnnG⟩ :=
     pseudo_trace H compress items r hnn h e
   have hi0 := hshape _ _ _ _ hexp
   subst hi0
+  have hat := sourceAt_of_trace eG hz (by simp) hlayout xA xB hnnG
   have hwk0 : i0.wellKinded = true := by
     unfold expandPseudo at hexp
     cases hk : pseudoKind name with
@@ -55,9 +56,9 @@ theorem single_free_effect (H : Hooks) (compress : Bool) (items : List Item) (r 
       intro n rd rs1 rs2 aq rl ex; cases i0 <;> simp [Instr.mapRegs] at ex; exact hna _ _ _ _ _ _ rfl
     have hnal' : ∀ n rd rs1 aq rl, i0.mapRegs (aliasReg r.constants) ≠ .al n rd rs1 aq rl := by
       intro n rd rs1 aq rl ex; cases i0 <;> simp [Instr.mapRegs] at ex; exact hnal _ _ _ _ _ rfl
-    have key := fun i32 hden => final_exec_free (i32 := i32) hlit hq1 hp1 hwk' hna' hnal' hns'
+    have key := fun i32 hden => final_decoded_free (i32 := i32) hlit hq1 hp1 hwk' hna' hnal' hns'
       (by rw [mapRegs_aj]; exact haj) (by intro imm hi; rw [mapRegs_imm] at hi; exact hfree imm hi) (hres _) hden
-    refine ⟨sizeSum P, ?_, ?_⟩
+    refine ⟨sizeSum P, hat, ?_, ?_⟩
     · -- validity, from the acceptance of whichever form is there
       obtain ⟨k, hk, hs, hnc⟩ := wellKinded_row hwk'
       rcases hq1 with rfl | ⟨hcm, cf, c, preds, p, L, rfl, dd⟩
@@ -103,7 +104,7 @@ theorem assemble_unary_effect (H : Hooks) (compress : Bool) (items : List Item) 
     {A B : List Item} {line : Line} {name rd rs : String}
     (e : items = A ++ .pseudo line name [rd, rs] :: B)
     {k : PKind} (hk : pseudoKind name = some k) (hku : (unaryDoc k 0 0).isSome = true) :
-    ∃ (off : Int) (a b : Nat) (i32 : Instr32) (n : Nat),
+    ∃ (off : Int) (a b : Nat) (i32 : Instr32) (n : Nat), SourceAt H compress items r A B line off ∧
       lookupRegister (aliasReg r.constants (.str rd)) = some a ∧ lookupRegister (aliasReg r.constants (.str rs)) = some b ∧
       unaryDoc k a b = some i32 ∧ (n = 4 ∨ n = 2) ∧ ExecAt r off n (exec i32 n) := by
   obtain ⟨items1, _, _, _, _, _, _, _, _, _, _, _, h1, _⟩ := assemble_stages_all H compress items r h
@@ -112,7 +113,7 @@ theorem assemble_unary_effect (H : Hooks) (compress : Bool) (items : List Item) 
   have hv := fun q => lit_vals hlit hneg (chainGet r.constants r.labels) line q
   cases k <;> simp [unaryDoc] at hku
   case mv =>
-    obtain ⟨off, hval, hkey⟩ := single_free_effect H compress items r hnn hlit h e
+    obtain ⟨off, hat, hval, hkey⟩ := single_free_effect H compress items r hnn hlit h e
       (i0 := .i "addi" (.str rd) (.str rs) (.arith "0") false)
       (rins := .i "addi" (aliasReg r.constants (.str rd)) (aliasReg r.constants (.str rs)) (.value 0) false)
       (by intro env p instrs short hx; simp only [expandPseudo, hk, expand_mv, Except.ok.injEq, Prod.mk.injEq] at hx; exact hx.1.symm)
@@ -123,9 +124,9 @@ theorem assemble_unary_effect (H : Hooks) (compress : Bool) (items : List Item) 
     have ha := some_of_isSome (hval .rd _ rfl)
     have hb := some_of_isSome (hval .rs1 _ rfl)
     obtain ⟨n, hn4, hex⟩ := hkey _ (fun _ => bridge_addi 0 false ha hb)
-    exact ⟨off, _, _, _, n, ha, hb, rfl, hn4, hex⟩
+    exact ⟨off, _, _, _, n, hat, ha, hb, rfl, hn4, hex.execAt⟩
   case not =>
-    obtain ⟨off, hval, hkey⟩ := single_free_effect H compress items r hnn hlit h e
+    obtain ⟨off, hat, hval, hkey⟩ := single_free_effect H compress items r hnn hlit h e
       (i0 := .i "xori" (.str rd) (.str rs) (.arith "-1") false)
       (rins := .i "xori" (aliasReg r.constants (.str rd)) (aliasReg r.constants (.str rs)) (.value (-1)) false)
       (by intro env p instrs short hx; simp only [expandPseudo, hk, expand_not, Except.ok.injEq, Prod.mk.injEq] at hx; exact hx.1.symm)
@@ -136,9 +137,9 @@ theorem assemble_unary_effect (H : Hooks) (compress : Bool) (items : List Item) 
     have ha := some_of_isSome (hval .rd _ rfl)
     have hb := some_of_isSome (hval .rs1 _ rfl)
     obtain ⟨n, hn4, hex⟩ := hkey _ (fun _ => bridge_xori (-1) false ha hb)
-    exact ⟨off, _, _, _, n, ha, hb, rfl, hn4, hex⟩
+    exact ⟨off, _, _, _, n, hat, ha, hb, rfl, hn4, hex.execAt⟩
   case neg =>
-    obtain ⟨off, hval, hkey⟩ := single_free_effect H compress items r hnn hlit h e
+    obtain ⟨off, hat, hval, hkey⟩ := single_free_effect H compress items r hnn hlit h e
       (i0 := .r "sub" (.str rd) (.str "x0") (.str rs))
       (rins := .r "sub" (aliasReg r.constants (.str rd)) (.str "x0") (aliasReg r.constants (.str rs)))
       (by intro env p instrs short hx; simp only [expandPseudo, hk, expand_neg, Except.ok.injEq, Prod.mk.injEq] at hx; exact hx.1.symm)
@@ -149,9 +150,9 @@ theorem assemble_unary_effect (H : Hooks) (compress : Bool) (items : List Item) 
     have ha := some_of_isSome (hval .rd _ rfl)
     have hb := some_of_isSome (hval .rs2 _ rfl)
     obtain ⟨n, hn4, hex⟩ := hkey _ (fun _ => bridge_sub ha reg_x0 hb)
-    exact ⟨off, _, _, _, n, ha, hb, rfl, hn4, hex⟩
+    exact ⟨off, _, _, _, n, hat, ha, hb, rfl, hn4, hex.execAt⟩
   case seqz =>
-    obtain ⟨off, hval, hkey⟩ := single_free_effect H compress items r hnn hlit h e
+    obtain ⟨off, hat, hval, hkey⟩ := single_free_effect H compress items r hnn hlit h e
       (i0 := .i "sltiu" (.str rd) (.str rs) (.arith "1") false)
       (rins := .i "sltiu" (aliasReg r.constants (.str rd)) (aliasReg r.constants (.str rs)) (.value 1) false)
       (by intro env p instrs short hx; simp only [expandPseudo, hk, expand_seqz, Except.ok.injEq, Prod.mk.injEq] at hx; exact hx.1.symm)
@@ -162,9 +163,9 @@ theorem assemble_unary_effect (H : Hooks) (compress : Bool) (items : List Item) 
     have ha := some_of_isSome (hval .rd _ rfl)
     have hb := some_of_isSome (hval .rs1 _ rfl)
     obtain ⟨n, hn4, hex⟩ := hkey _ (fun _ => bridge_sltiu 1 false ha hb)
-    exact ⟨off, _, _, _, n, ha, hb, rfl, hn4, hex⟩
+    exact ⟨off, _, _, _, n, hat, ha, hb, rfl, hn4, hex.execAt⟩
   case snez =>
-    obtain ⟨off, hval, hkey⟩ := single_free_effect H compress items r hnn hlit h e
+    obtain ⟨off, hat, hval, hkey⟩ := single_free_effect H compress items r hnn hlit h e
       (i0 := .r "sltu" (.str rd) (.str "x0") (.str rs))
       (rins := .r "sltu" (aliasReg r.constants (.str rd)) (.str "x0") (aliasReg r.constants (.str rs)))
       (by intro env p instrs short hx; simp only [expandPseudo, hk, expand_snez, Except.ok.injEq, Prod.mk.injEq] at hx; exact hx.1.symm)
@@ -175,9 +176,9 @@ theorem assemble_unary_effect (H : Hooks) (compress : Bool) (items : List Item) 
     have ha := some_of_isSome (hval .rd _ rfl)
     have hb := some_of_isSome (hval .rs2 _ rfl)
     obtain ⟨n, hn4, hex⟩ := hkey _ (fun _ => bridge_sltu ha reg_x0 hb)
-    exact ⟨off, _, _, _, n, ha, hb, rfl, hn4, hex⟩
+    exact ⟨off, _, _, _, n, hat, ha, hb, rfl, hn4, hex.execAt⟩
   case sltz =>
-    obtain ⟨off, hval, hkey⟩ := single_free_effect H compress items r hnn hlit h e
+    obtain ⟨off, hat, hval, hkey⟩ := single_free_effect H compress items r hnn hlit h e
       (i0 := .r "slt" (.str rd) (.str rs) (.str "x0"))
       (rins := .r "slt" (aliasReg r.constants (.str rd)) (aliasReg r.constants (.str rs)) (.str "x0"))
       (by intro env p instrs short hx; simp only [expandPseudo, hk, expand_sltz, Except.ok.injEq, Prod.mk.injEq] at hx; exact hx.1.symm)
@@ -188,9 +189,9 @@ theorem assemble_unary_effect (H : Hooks) (compress : Bool) (items : List Item) 
     have ha := some_of_isSome (hval .rd _ rfl)
     have hb := some_of_isSome (hval .rs1 _ rfl)
     obtain ⟨n, hn4, hex⟩ := hkey _ (fun _ => bridge_slt ha hb reg_x0)
-    exact ⟨off, _, _, _, n, ha, hb, rfl, hn4, hex⟩
+    exact ⟨off, _, _, _, n, hat, ha, hb, rfl, hn4, hex.execAt⟩
   case sgtz =>
-    obtain ⟨off, hval, hkey⟩ := single_free_effect H compress items r hnn hlit h e
+    obtain ⟨off, hat, hval, hkey⟩ := single_free_effect H compress items r hnn hlit h e
       (i0 := .r "slt" (.str rd) (.str "x0") (.str rs))
       (rins := .r "slt" (aliasReg r.constants (.str rd)) (.str "x0") (aliasReg r.constants (.str rs)))
       (by intro env p instrs short hx; simp only [expandPseudo, hk, expand_sgtz, Except.ok.injEq, Prod.mk.injEq] at hx; exact hx.1.symm)
@@ -201,7 +202,7 @@ theorem assemble_unary_effect (H : Hooks) (compress : Bool) (items : List Item) 
     have ha := some_of_isSome (hval .rd _ rfl)
     have hb := some_of_isSome (hval .rs2 _ rfl)
     obtain ⟨n, hn4, hex⟩ := hkey _ (fun _ => bridge_slt ha reg_x0 hb)
-    exact ⟨off, _, _, _, n, ha, hb, rfl, hn4, hex⟩
+    exact ⟨off, _, _, _, n, hat, ha, hb, rfl, hn4, hex.execAt⟩
 
 /-! ### (d) jr, jalr, ret, nop, fence -/
 
@@ -213,7 +214,8 @@ theorem assemble_jr_effect (H : Hooks) (compress : Bool) (items : List Item) (r 
     {A B : List Item} {line : Line} {name rs : String}
     (e : items = A ++ .pseudo line name [rs] :: B)
     (hk : pseudoKind name = some .jr ∨ pseudoKind name = some .jalr) :
-    ∃ (off : Int) (b n : Nat), lookupRegister (aliasReg r.constants (.str rs)) = some b ∧ (n = 4 ∨ n = 2) ∧
+    ∃ (off : Int) (b n : Nat), SourceAt H compress items r A B line off ∧
+      lookupRegister (aliasReg r.constants (.str rs)) = some b ∧ (n = 4 ∨ n = 2) ∧
       ExecAt r off n (exec (.jalr (if pseudoKind name = some .jalr then 1 else 0) b 0) n) := by
   obtain ⟨items1, _, _, _, _, _, _, _, _, _, _, _, h1, _⟩ := assemble_stages_all H compress items r h
   have hx0 := alias_x h1 (s := "x0") (Or.inl rfl)
@@ -221,7 +223,7 @@ theorem assemble_jr_effect (H : Hooks) (compress : Bool) (items : List Item) (r 
   have hfl := fun x hx => (labelfree_lits hlit hneg r.constants (x := x) hx).1
   have hv := fun q => lit_vals hlit hneg (chainGet r.constants r.labels) line q
   rcases hk with hkk | hkk
-  · obtain ⟨off, hval, hkey⟩ := single_free_effect H compress items r hnn hlit h e
+  · obtain ⟨off, hat, hval, hkey⟩ := single_free_effect H compress items r hnn hlit h e
       (i0 := .i "jalr" (.str "x0") (.str rs) (.arith "0") false)
       (rins := .i "jalr" (.str "x0") (aliasReg r.constants (.str rs)) (.value 0) false)
       (by intro env p instrs short hx; simp only [expandPseudo, hkk, expand_jr, Except.ok.injEq, Prod.mk.injEq] at hx; exact hx.1.symm)
@@ -231,10 +233,10 @@ theorem assemble_jr_effect (H : Hooks) (compress : Bool) (items : List Item) (r 
     simp only [Instr.mapRegs, hx0] at hval hkey
     have hb := some_of_isSome (hval .rs1 _ rfl)
     obtain ⟨n, hn4, hex⟩ := hkey _ (fun _ => bridge_jalr 0 false reg_x0 hb)
-    refine ⟨off, _, n, hb, hn4, ?_⟩
+    refine ⟨off, _, n, hat, hb, hn4, ?_⟩
     have : pseudoKind name ≠ some .jalr := by rw [hkk]; decide
-    rw [if_neg this]; exact hex
-  · obtain ⟨off, hval, hkey⟩ := single_free_effect H compress items r hnn hlit h e
+    rw [if_neg this]; exact hex.execAt
+  · obtain ⟨off, hat, hval, hkey⟩ := single_free_effect H compress items r hnn hlit h e
       (i0 := .i "jalr" (.str "x1") (.str rs) (.arith "0") false)
       (rins := .i "jalr" (.str "x1") (aliasReg r.constants (.str rs)) (.value 0) false)
       (by intro env p instrs short hx; simp only [expandPseudo, hkk, expand_jalr, Except.ok.injEq, Prod.mk.injEq] at hx; exact hx.1.symm)
@@ -244,8 +246,29 @@ theorem assemble_jr_effect (H : Hooks) (compress : Bool) (items : List Item) (r 
     simp only [Instr.mapRegs, hx1] at hval hkey
     have hb := some_of_isSome (hval .rs1 _ rfl)
     obtain ⟨n, hn4, hex⟩ := hkey _ (fun _ => bridge_jalr 0 false reg_x1 hb)
-    refine ⟨off, _, n, hb, hn4, ?_⟩
-    rw [if_pos hkk]; exact hex
+    refine ⟨off, _, n, hat, hb, hn4, ?_⟩
+    rw [if_pos hkk]; exact hex.execAt
+
+/-- **the instruction at `off`, identified** (not only its effect: `Spec.exec` cannot tell ebreak / ecall /
+    fence / writes to x0 apart): the 4 bytes are a word that DECODES to `i32`, or the 2 bytes are a legal RVC
+    halfword that decodes to `ci` with `expand16 ci = i32` -/
+def InstrAt (r : AsmResult) (off : Int) (n : Nat) (i32 : Instr32) : Prop :=
+  (n = 4 ∧ ∃ w, sliceAt r.bytes off 4 = leBytes 4 w ∧ decode32 w = some i32) ∨
+  (n = 2 ∧ ∃ w ci, sliceAt r.bytes off 2 = leBytes 2 w ∧ decode16 w = some ci ∧ ci.legal = true ∧ expand16 ci = i32)
+
+/-- the only compression rule that holds of an `addi` with rd = x0 is c.nop; of a `jalr` with rd = x0, c.jr -/
+theorem rule_of_rd0 {c : String} {preds : List Pred} (hmem : (c, preds) ∈ criteria) {ins : Instr} {ev : Imm → Option Int}
+    (hn : ins.name = "addi" ∨ ins.name = "jalr") (hrd : regNum ins .rd = some 0)
+    (hp : ∀ pr ∈ preds, pr.holds ins ev) :
+    (ins.name = "addi" ∧ c = "c.nop") ∨ (ins.name = "jalr" ∧ c = "c.jr") := by
+  simp only [criteria, List.mem_cons, Prod.mk.injEq, List.mem_nil_iff, or_false] at hmem
+  rcases hmem with ⟨rfl, rfl⟩ | ⟨rfl, rfl⟩ | ⟨rfl, rfl⟩ | ⟨rfl, rfl⟩ | ⟨rfl, rfl⟩ | ⟨rfl, rfl⟩ | ⟨rfl, rfl⟩ | ⟨rfl, rfl⟩ |
+    ⟨rfl, rfl⟩ | ⟨rfl, rfl⟩ | ⟨rfl, rfl⟩ | ⟨rfl, rfl⟩ | ⟨rfl, rfl⟩ | ⟨rfl, rfl⟩ | ⟨rfl, rfl⟩ | ⟨rfl, rfl⟩ | ⟨rfl, rfl⟩ |
+    ⟨rfl, rfl⟩ | ⟨rfl, rfl⟩ | ⟨rfl, rfl⟩ | ⟨rfl, rfl⟩ | ⟨rfl, rfl⟩ | ⟨rfl, rfl⟩ | ⟨rfl, rfl⟩ | ⟨rfl, rfl⟩ | ⟨rfl, rfl⟩ |
+    ⟨rfl, rfl⟩ | ⟨rfl, rfl⟩ | ⟨rfl, rfl⟩
+  all_goals (
+    simp only [List.forall_mem_cons, List.mem_nil_iff, false_imp_iff, implies_true, and_true, Pred.holds, hrd, Option.some.injEq] at hp
+    rcases hn with hn | hn <;> simp [hn] at hp ⊢ <;> omega)
 
 /-- the documented instruction of `ret`, `nop`, `fence` -/
 def miscDoc : PKind → Option Instr32
@@ -261,7 +284,8 @@ theorem assemble_misc_effect (H : Hooks) (compress : Bool) (items : List Item) (
     {A B : List Item} {line : Line} {name : String} {args : List String}
     (e : items = A ++ .pseudo line name args :: B)
     {k : PKind} (hk : pseudoKind name = some k) {i32 : Instr32} (hd : miscDoc k = some i32) :
-    ∃ (off : Int) (n : Nat), (n = 4 ∨ n = 2) ∧ ExecAt r off n (exec i32 n) := by
+    ∃ (off : Int) (n : Nat), SourceAt H compress items r A B line off ∧ (n = 4 ∨ n = 2) ∧
+      ExecAt r off n (exec i32 n) ∧ InstrAt r off n i32 ∧ (k = .fence → n = 4) := by
   obtain ⟨items1, _, _, _, _, _, _, _, _, _, _, _, h1, _⟩ := assemble_stages_all H compress items r h
   have hx0 := alias_x h1 (s := "x0") (Or.inl rfl)
   have hx1 := alias_x h1 (s := "x1") (Or.inr (Or.inl rfl))
@@ -270,7 +294,7 @@ theorem assemble_misc_effect (H : Hooks) (compress : Bool) (items : List Item) (
   cases k <;> simp only [miscDoc, Option.some.injEq, reduceCtorEq] at hd
   case ret =>
     subst hd
-    obtain ⟨off, hval, hkey⟩ := single_free_effect H compress items r hnn hlit h e
+    obtain ⟨off, hat, hval, hkey⟩ := single_free_effect H compress items r hnn hlit h e
       (i0 := .i "jalr" (.str "x0") (.str "x1") (.arith "0") false)
       (rins := .i "jalr" (.str "x0") (.str "x1") (.value 0) false)
       (by intro env p instrs short hx; simp only [expandPseudo, hk, expand_ret, Except.ok.injEq, Prod.mk.injEq] at hx; exact hx.1.symm)
@@ -278,10 +302,27 @@ theorem assemble_misc_effect (H : Hooks) (compress : Bool) (items : List Item) (
       (by intro imm hi; simp only [Instr.imm?, Option.some.injEq] at hi; subst hi; exact hfl _ (Or.inl rfl))
       (by intro q; simp only [Instr.mapRegs, hx0, hx1, resolveWith, Instr.imm?, (hv q).1, Option.map_some, Instr.setImm])
     obtain ⟨n, hn4, hex⟩ := hkey _ (fun _ => bridge_jalr 0 false reg_x0 reg_x1)
-    exact ⟨off, n, hn4, hex⟩
+    refine ⟨off, n, hat, hn4, hex.execAt, ?_, fun ek => by cases ek⟩
+    simp only [Instr.mapRegs, hx0, hx1] at hex
+    rcases hex with ⟨rfl, w, hs, hd⟩ | ⟨rfl, w, ci, c, preds, cf, rcf, hs, hd, hl, _, hmem, hp, hcf, hr, hd16⟩
+    · exact Or.inl ⟨rfl, w, hs, hd⟩
+    · have hc := rule_of_rd0 hmem (Or.inr rfl) rfl hp
+      have hc' : c = "c.jr" := by
+        rcases hc with ⟨e, _⟩ | ⟨_, e⟩
+        · simp [Instr.name] at e
+        · exact e
+      subst hc'
+      simp only [compressedForm, reduceCtorEq, if_false, if_true, Option.some.injEq, String.reduceEq] at hcf
+      subst hcf
+      simp only [resolveWith, Instr.imm?, Option.some.injEq] at hr
+      subst hr
+      have : denote16I (.crj "c.jr" (.str "x1") false) = some (.jr 1) := by decide
+      rw [this] at hd16
+      cases hd16
+      exact Or.inr ⟨rfl, w, _, hs, hd, hl, rfl⟩
   case nop =>
     subst hd
-    obtain ⟨off, hval, hkey⟩ := single_free_effect H compress items r hnn hlit h e
+    obtain ⟨off, hat, hval, hkey⟩ := single_free_effect H compress items r hnn hlit h e
       (i0 := .i "addi" (.str "x0") (.str "x0") (.arith "0") false)
       (rins := .i "addi" (.str "x0") (.str "x0") (.value 0) false)
       (by intro env p instrs short hx; simp only [expandPseudo, hk, expand_nop, Except.ok.injEq, Prod.mk.injEq] at hx; exact hx.1.symm)
@@ -289,10 +330,27 @@ theorem assemble_misc_effect (H : Hooks) (compress : Bool) (items : List Item) (
       (by intro imm hi; simp only [Instr.imm?, Option.some.injEq] at hi; subst hi; exact hfl _ (Or.inl rfl))
       (by intro q; simp only [Instr.mapRegs, hx0, resolveWith, Instr.imm?, (hv q).1, Option.map_some, Instr.setImm])
     obtain ⟨n, hn4, hex⟩ := hkey _ (fun _ => bridge_addi 0 false reg_x0 reg_x0)
-    exact ⟨off, n, hn4, hex⟩
+    refine ⟨off, n, hat, hn4, hex.execAt, ?_, fun ek => by cases ek⟩
+    simp only [Instr.mapRegs, hx0] at hex
+    rcases hex with ⟨rfl, w, hs, hd⟩ | ⟨rfl, w, ci, c, preds, cf, rcf, hs, hd, hl, _, hmem, hp, hcf, hr, hd16⟩
+    · exact Or.inl ⟨rfl, w, hs, hd⟩
+    · have hc := rule_of_rd0 hmem (Or.inl rfl) rfl hp
+      have hc' : c = "c.nop" := by
+        rcases hc with ⟨_, e⟩ | ⟨e, _⟩
+        · exact e
+        · simp [Instr.name] at e
+      subst hc'
+      simp only [compressedForm, reduceCtorEq, if_false, if_true, Option.some.injEq, String.reduceEq] at hcf
+      subst hcf
+      simp only [resolveWith, Instr.imm?, Option.some.injEq] at hr
+      subst hr
+      have : denote16I (.cin "c.nop") = some .nop := by decide
+      rw [this] at hd16
+      cases hd16
+      exact Or.inr ⟨rfl, w, _, hs, hd, hl, rfl⟩
   case fence =>
     subst hd
-    obtain ⟨off, hval, hkey⟩ := single_free_effect H compress items r hnn hlit h e
+    obtain ⟨off, hat, hval, hkey⟩ := single_free_effect H compress items r hnn hlit h e
       (i0 := .fence "fence" (.int 15) (.int 15))
       (rins := .fence "fence" (.int 15) (.int 15))
       (by intro env p instrs short hx; simp only [expandPseudo, hk, expand_fence, Except.ok.injEq, Prod.mk.injEq] at hx; exact hx.1.symm)
@@ -300,24 +358,32 @@ theorem assemble_misc_effect (H : Hooks) (compress : Bool) (items : List Item) (
       (by intro imm hi; simp [Instr.imm?] at hi)
       (by intro q; simp only [Instr.mapRegs, resolveWith, Instr.imm?])
     obtain ⟨n, hn4, hex⟩ := hkey _ (fun _ => bridge_fence)
-    exact ⟨off, n, hn4, hex⟩
+    have hn : n = 4 := by
+      rcases hex with ⟨rfl, _⟩ | ⟨_, _, _, _, _, _, _, _, _, _, _, _, _, hcf, _⟩
+      · rfl
+      · simp [Instr.mapRegs, compressedForm] at hcf
+    refine ⟨off, n, hat, hn4, hex.execAt, ?_, fun _ => hn⟩
+    rcases hex with ⟨rfl, w, hs, hd⟩ | ⟨rfl, _⟩
+    · exact Or.inl ⟨rfl, w, hs, hd⟩
+    · cases hn
 
 /-! ### non-vacuity: `progP` of Props/C12Program (`… ; not a1, a1 ; … ; ret`) with `-c` -/
 
-open BB.Props.C12 (Hp hp_litOK hp_neg1 progP) in
+open BB.Props.C12 (Hp hp_litOK hp_neg1 progP lp) in
 example :
     let r : AsmResult := { bytes := [25, 197, 49, 32, 1, 21, 147, 197, 245, 255, 227, 27, 181, 254, 130, 128],
                            labels := [("B", 0), ("F", 14)], constants := [] }
-    (∃ (off : Int) (a b : Nat) (i32 : Instr32) (n : Nat),
+    (∃ (off : Int) (a b : Nat) (i32 : Instr32) (n : Nat), SourceAt Hp true progP r (progP.take 5) (progP.drop 6) (lp 6) off ∧
       lookupRegister (aliasReg r.constants (.str "a1")) = some a ∧ lookupRegister (aliasReg r.constants (.str "a1")) = some b ∧
       unaryDoc .not a b = some i32 ∧ (n = 4 ∨ n = 2) ∧ ExecAt r off n (exec i32 n)) ∧
-    (∃ (off : Int) (n : Nat), (n = 4 ∨ n = 2) ∧ ExecAt r off n (exec (.jalr 0 1 0) n)) := by
+    (∃ (off : Int) (n : Nat), SourceAt Hp true progP r (progP.take 8) [] (lp 9) off ∧ (n = 4 ∨ n = 2) ∧
+      ExecAt r off n (exec (.jalr 0 1 0) n) ∧ InstrAt r off n (.jalr 0 1 0) ∧ (PKind.ret = .fence → n = 4)) := by
   intro r
   have h : assembleItems Hp true progP [] [] = .ok r := by decide
   have hnn : NonNeg progP := by unfold NonNeg; decide
-  exact ⟨assemble_unary_effect Hp true progP r hnn hp_litOK hp_neg1 h (A := [_, _, _, _, _]) (B := [_, _, _]) rfl
+  exact ⟨assemble_unary_effect Hp true progP r hnn hp_litOK hp_neg1 h (A := progP.take 5) (B := progP.drop 6) rfl
       (k := .not) (by decide) rfl,
-    assemble_misc_effect Hp true progP r hnn hp_litOK hp_neg1 h (A := [_, _, _, _, _, _, _, _]) (B := []) rfl
+    assemble_misc_effect Hp true progP r hnn hp_litOK hp_neg1 h (A := progP.take 8) (B := []) rfl
       (k := .ret) (by decide) rfl⟩
 
 end BB.Props.C05
